@@ -8,12 +8,14 @@ Alphabet: tiny pmapping tables with the column kinds the joiner sees —
 pareto-relevant kind.  Every table of the bound is pushed through the real ``makepareto``
 and ``PmappingDataframe`` (constructor and ``make_pareto``), float64 and float32.
 
-Bound: phase Z (zero tolerance): every table with <= 3 rows over 2-value alphabets and every
-2-row table over 3-value alphabets (thorough: <= 4 rows), x 6 column-set variants x 4 entry
-points.  Phase T: every 2-row table over value ladders placed just inside / just outside
-the (1+t) buckets of each tolerance, and every 3-row table over 2-value (thorough 3-value)
-ladders, x the full tolerance grid {0, .01, .1, .5}^3 (objective, relative-resource,
-absolute-resource) x both entry points.
+Bound (quick): zero tolerance - every table with <= 2 rows over 2-value alphabets x 9
+variant/entry combinations (6 column-set variants through makepareto/f64, makepareto/f32,
+PmappingDataframe constructor/f32, PmappingDataframe.make_pareto/f64), every 3-row table over
+2-value alphabets x 3 combinations, every 2-row table over 3-value alphabets x 2 entries.
+Tolerance grid {0,.01,.1,.5}^3 (objective, relative-resource, absolute-resource): every 2-row
+table over value ladders placed just inside / just outside the (1+t) buckets of each
+tolerance, 2-row tables with differing tile shapes (both entry points), 3-row tables over
+2-value ladders.  Thorough: <= 4 rows, 9-value ladders, 3-row 3-value ladders, both entries.
 
 Oracle: mc/ref/pareto_table.py (built on the O(n^2) dominance of mc/ref/pareto.py).
 Zero tolerance: no strictly dominated row (same fused-loop tile shape) is kept and every
@@ -22,8 +24,20 @@ the kept set; returned rows are unaltered input rows.  Tolerance t: every droppe
 kept row with the same tile shape within (1+t_obj) on objectives and within
 (1+t_rel)*x + t_abs on reservations.
 
-Self-test (VERIF_REPO=/tmp/af-mut-c12, quick tier):
-  (filled in below after running)
+Self-test (mutants on a scratch copy, VERIF_REPO=/tmp/af-mut-c12, quick tier):
+  M1 df_convention.is_n_iterations_col: ``startswith("fused_loop<SEP>n_iterations")`` ->
+       ``startswith("fused_loop<SEP>")`` (tile-shape column no longer splits) -> CAUGHT (5366,
+       */zero/drops-nondominated and */drops-uncovered)
+  M2 pareto.logscale_to_tolerance: bucket width ``log(1+t)`` -> ``log(1+2t)`` -> CAUGHT (144
+       drops-uncovered, e.g. energies 0.92 / 1.09 merged at t = 0.1)
+  M2b logscale_to_tolerance ``np.round`` -> ``np.floor`` (DESIGN's suggestion) -> NOT CAUGHT, and
+       rightly so: floor buckets are still narrower than (1+t), the property keeps holding
+  M3 makepareto: multi_round(x, rel, abs) called with the two tolerances swapped -> CAUGHT (432)
+  M4 makepareto constant-column skip ``(arr == arr[0]).all()`` -> ``(arr[1:] == arr[0]).any()``
+       -> CAUGHT (4080).  (DESIGN's ``arr[-1]`` variant is logically equivalent; not run.)
+  M5 PmappingDataframe.make_pareto passes ``objective_tolerance=resource_usage_tolerance``
+       -> CAUGHT (96, pdf-make_pareto/*/drops-uncovered)
+  M6 makepareto: split columns get goal "min" instead of "diff" -> CAUGHT (3552)
 """
 
 from __future__ import annotations
@@ -184,6 +198,7 @@ PLANS = {
     # name -> [(entry point, column-set variant, float dtype)]
     "Z": [("makepareto", v, "f64") for v in VARIANTS] + [
         ("makepareto", "full", "f32"), ("pdf-ctor", "full", "f32"), ("pdf-make_pareto", "full", "f64")],
+    "Zm": [("makepareto", "full", "f64"), ("makepareto", "cobj", "f64"), ("pdf-ctor", "full", "f32")],
     "Zs": [("makepareto", "full", "f64"), ("pdf-ctor", "full", "f32")],
     "T": [("makepareto", "full", "f64")],
     "Tb": [("makepareto", "full", "f64"), ("pdf-make_pareto", "full", "f32")],
@@ -248,42 +263,65 @@ def table_tree(ns, alph, tols=None):
     return tree
 
 
+def union(families):
+    """families: {name: (tree, plan)} -> (tree, body) with the family name as level 0 (one worker pool for all)."""
+    names = list(families)
+    bodies = {k: make_body(v[1]) for k, v in families.items()}
+
+    def tree(p):
+        if len(p) == 0:
+            return names
+        return families[p[0]][0](p[1:])
+
+    def body(cfg):
+        return bodies[cfg[0]](cfg[1:])
+
+    return tree, body
+
+
 def run(ctx):
     q = ctx.quick
     # warm-up (numba kernels, pandas paths) in the parent
     evaluate("Z", [(1, 2, 0.5, 1), (2, 1, 0.25, 1), (2, 2, 0.5, 2)], (0, 0, 0))
     evaluate("Tb", [(1, 2, 0.5, 1), (1.004, 1, 0.25, 1)], (0.1, 0.1, 0.01))
-    ex = lambda name, tree, phase, sd: ctx.explore(name, tree, make_body(phase), shard_depth=sd,
-                                                   distinct_by_construction=True)
-
     # ---- zero tolerance: exactness, constant / ignored columns, every entry point
     A2 = ([1, 2], [1, 2], [0.25, 0.5], [1, 2])
     A3 = ([1, 2, 4], [1, 2, 4], [0.25, 0.5, 1], [1, 2, 4])
-    ex("Z-2val", table_tree([0, 1, 2, 3] if q else [0, 1, 2, 3, 4], A2), "Z", 3)
-    ex("Z-3val-n2", table_tree([2], A3), "Zs" if q else "Z", 2)
-    if not q:
-        ex("Z-3val-n3", table_tree([3], ([1, 2, 4], [1, 2, 4], [0.25, 0.5], [1, 2])), "Zs", 2)
+    A3q = ([1, 2, 4], [1, 2, 4], [0.25, 0.5, 1], [1, 2])
+    fam = {"Z-2val": (table_tree([0, 1, 2] if q else [0, 1, 2, 3, 4], A2), "Z"),
+           "Z-3val-n2": (table_tree([2], A3q if q else A3), "Zs" if q else "Z")}
+    if q:
+        fam["Z-2val-n3"] = (table_tree([3], A2), "Zm")
+    else:
+        fam["Z-3val-n3"] = (table_tree([3], ([1, 2, 4], [1, 2, 4], [0.25, 0.5], [1, 2])), "Zs")
+    tree, body = union(fam)
+    ctx.explore("zero-tolerance", tree, body, shard_depth=4, distinct_by_construction=True)
 
     # ---- tolerance grid.  The ladders sit just inside / just outside the (1+t) buckets of t = .01, .1, .5
     if q:
-        E2, L2, R2 = [0.92, 1, 1.004, 1.09], [1, 1.09], [0.25, 0.254, 0.5]
+        E2, L2, R2 = [0.92, 1, 1.004, 1.09, 1.3], [1], [0.25, 0.254, 0.5]
         T3 = ([1, 1.09], [1], [0.25, 0.3], [1])
     else:
         E2 = [0.75, 0.92, 0.993, 1, 1.004, 1.008, 1.09, 1.3, 2]
         L2 = [1, 1.09]
         R2 = [0, 0.25, 0.254, 0.5, 1.0]
         T3 = ([0.92, 1, 1.09], [1], [0.25, 0.254, 0.5], [1])
-    ex("T-n2", table_tree([2], (E2, L2, R2, [1]), TOL_GRID), "T", 3)
-    ex("T-n2-split", table_tree([2], ([1, 1.004], [1], [0.25, 0.254], [1, 2]), TOL_GRID), "Tb", 3)
-    ex("T-n3", table_tree([3], T3, TOL_GRID), "Tb", 3)
-    if not q:
-        ex("T-n3-2val", table_tree([3], ([1, 1.09], [1, 1.004], [0.25, 0.3], [1]), TOL_GRID), "Tb", 3)
-    ctx.bound(Z="rows<=%d over 2-value alphabets x %d variant/entry combinations; rows=2 over 3-value alphabets%s"
-                % (3 if q else 4, len(PLANS["Z"]), "" if q else "; rows=3 over 3x3x2x2 (2 entries)"),
+    fam = {"T-n2": (table_tree([2], (E2, L2, R2, [1]), TOL_GRID), "T"),
+           "T-n2-split": (table_tree([2], ([1, 1.004], [1], [0.25, 0.254], [1, 2]), TOL_GRID), "Tb"),
+           "T-n3": (table_tree([3], T3, TOL_GRID), "T" if q else "Tb")}
+    if q:
+        fam["T-n2-2obj"] = (table_tree([2], ([1, 1.004], [1, 1.09], [0.25], [1]), TOL_GRID), "T")
+    else:
+        fam["T-n3-2val"] = (table_tree([3], ([1, 1.09], [1, 1.004], [0.25, 0.3], [1]), TOL_GRID), "Tb")
+    tree, body = union(fam)
+    ctx.explore("tolerance-grid", tree, body, shard_depth=4, distinct_by_construction=True)
+    ctx.bound(Z="rows<=%s over 2-value alphabets x %d variant/entry combinations%s; rows=2 over 3-value alphabets%s"
+                % (2 if q else 4, len(PLANS["Z"]), " and rows=3 x 3 combinations" if q else "",
+                   " (tile shape 2-valued, 2 entries)" if q else "; rows=3 over 3x3x2x2 (2 entries)"),
               variants=VARIANTS, T_rows2={"energy": E2, "latency": L2, "reservation": R2},
               T_rows3=[list(a) for a in T3],
               tolerance_grid="{0,0.01,0.1,0.5}^3 (objective, relative resource, absolute resource)",
-              T_entries={"T-n2": "makepareto", "T-n2-split/T-n3": "makepareto + PmappingDataframe.make_pareto"})
+              T_entries={"T-n2": "makepareto", "T-n2-split" + ("" if q else "/T-n3"): "makepareto + PmappingDataframe.make_pareto"})
     ctx.note("n_iterations column = 8 // tile-shape column (inside the contract stated in makepareto); note that "
              "is_n_iterations_col() only matches 'fused_loop<SEP>n_iterations...' while real tables name these "
              "columns 'fused_loop<SEP><einsum><SEP>n_iterations<SEP>k', so in real runs they act as split columns")
